@@ -255,6 +255,22 @@ ViolatorClass(S) ==
 \* (a WAIVED line carrying the trace line number from TLC register 8, turned into a KNOWN-FINDING
 \* or, if no open finding matches, a VIOLATION by ./check) but does not stop the validation of
 \* the rest of the history.  Everything else fails the conjunct.
+\* Of the facet-adjacent violating pairs (cell c, apex v of the neighbour across facet f): does the
+\* k=2 flip of f create a flat cell (some (c + v) - a, a in f, has zero volume)?  The library's repair
+\* and flip verifier skip such facets.
+DegenerateFlipClass(S) ==
+  LET V == StrictViolations(S)
+      adjPairs == {p \in V : \E d \in CRecs(S) :
+                      /\ d.id # p[1] /\ p[2] \in CellSet(d)
+                      /\ Cardinality(CellSet(d) \cap CellSet(CRec(S, p[1]))) = S.D}
+      flat(p) == LET c == CellSet(CRec(S, p[1]))
+                     d == CHOOSE d \in CRecs(S) : d.id # p[1] /\ p[2] \in CellSet(d)
+                                                  /\ Cardinality(CellSet(d) \cap c) = S.D
+                     f == c \cap CellSet(d)
+                 IN  \E a \in f : Orient(Pts(Pos(S), SetToSeq((c \cup {p[2]}) \ {a}))) = 0
+  IN  IF adjPairs = {} THEN "none"
+      ELSE IF \A p \in adjPairs : flat(p) THEN "all" ELSE "some-not"
+
 ChkNSI(name, S) ==
   IF TLCGet(9) \/ NoStrictlyInside(S) THEN TRUE
   ELSE LET cls == ViolatorClass(S)
@@ -264,6 +280,11 @@ ChkNSI(name, S) ==
            ELSE /\ PrintT(<<"CONTRACT-FAIL", name>>)
                 /\ PrintT(<<"DIAG", "violators", cls>>)
                 /\ PrintT(<<"DIAG", "convex", cvx>>)
+                \* cells that are flat at the lattice homes of perturbed vertices: their own predicates
+                \* are inside the tolerance band
+                /\ PrintT(<<"DIAG", "degflip", DegenerateFlipClass(S)>>)
+                /\ PrintT(<<"DIAG", "flatcells",
+                            IF \E c \in CRecs(S) : HasPert(S, c.vs) /\ CellOrient(S, c) = 0 THEN "yes" ELSE "no">>)
                 /\ FALSE
 
 \* General position of the home coordinates: no D+1 points on a hyperplane,
